@@ -290,6 +290,47 @@ def _reach(cfg, start: int, blocked) -> Set[int]:
     return seen
 
 
+# ---------------------------------------------------------------------------------- SELECT-EVERY-ROW
+def rule_select_every_row(db: ProgramDB) -> List[Instance]:
+    """The other half of SELECT-PER-ROW: what is withdrawn after every row has to be selected FOR every row.  A selection
+    (`self._conclusion_.update(…)`, `self.update_conclusion(…)`) inside a loop over rows that is guarded by a local carried from one
+    iteration to the next (set before the loop, changed in it: `if not right_yielded:`) runs for the first row only, while the clear after
+    the yield runs for each: a refinement that fires for several elements of one parent (a flattened collection the base does not
+    bind) draws its conclusion for the first of them and none for the others."""
+    from ..boolexpr import guards_of
+    out = []
+    cs = db.cls("ConclusionSelector")
+    n = 0
+    for c in sorted(cs.all_subclasses(), key=lambda k: k.qualname):
+        m = c.methods.get("_evaluate__")
+        if m is None or not m.is_generator or m.cls is not c:
+            continue
+        for loop in [l for l in own_nodes(m.node) if isinstance(l, ast.For)]:
+            inner_loops = [l for l in ast.walk(loop) if isinstance(l, ast.For) and l is not loop]
+            assigned_in = {t.id for a in ast.walk(loop) if isinstance(a, (ast.Assign, ast.AugAssign)) for t in (a.targets if isinstance(a, ast.Assign) else [a.target])
+                           if isinstance(t, ast.Name)}
+            before = {t.id for a in own_nodes(m.node) if isinstance(a, ast.Assign) and not any(a is x for x in ast.walk(loop)) and a.lineno < loop.lineno
+                      for t in a.targets if isinstance(t, ast.Name)}
+            # a local of an enclosing loop that is set before THIS loop and changed in it is carried as well
+            carried = assigned_in & before
+            for x in ast.walk(loop):
+                if not (isinstance(x, ast.Call) and isinstance(x.func, ast.Attribute)):
+                    continue
+                sel = (x.func.attr == "update_conclusion" and unparse(x.func.value) == "self") or (x.func.attr in ("update", "add") and unparse(x.func.value) == "self._conclusion_")
+                if not sel or any(x is y for l in inner_loops for y in ast.walk(l)):
+                    continue
+                n += 1
+                g = guards_of(x, loop.body) or []
+                by = sorted({nm.id for t, _p in g for nm in ast.walk(t) if isinstance(nm, ast.Name) and nm.id in carried})
+                out.append(inst("SELECT-EVERY-ROW", VIOLATION if by else HOLDS, m, f"{m.short}[{unparse(x)[:50]}]",
+                                f"`{unparse(x)[:60]}` runs only while `{', '.join(by)}` (set before the loop, changed in it) has its initial value, i.e. for the first row of "
+                                f"the loop; the conclusions are withdrawn after every row: the second element of one parent for which the refinement fires gets no conclusion"
+                                if by else "the selection does not depend on a local carried from row to row", line=x.lineno))
+    if n == 0:
+        raise AnalysisError("no conclusion selection inside a row loop of a selector found")
+    return out
+
+
 # ---------------------------------------------------------------------------------- CONCLUDED-PER-CONCLUSION
 def rule_concluded_per_conclusion(db: ProgramDB) -> List[Instance]:
     """What a selector remembers as 'already concluded' is remembered per conclusion: the store it consults and extends
@@ -326,6 +367,7 @@ def rule_concluded_per_conclusion(db: ProgramDB) -> List[Instance]:
                     expr_names |= names_in(d)
         ok = bool(expr_names & derived) or cp in expr_names
         partial = None
+        key_exprs = []
         if ok:
             # ... and by each conclusion as a whole: a key built from a part of it (the variable it is about, without the value)
             # is shared by two conclusions that differ in the rest
@@ -350,6 +392,15 @@ def rule_concluded_per_conclusion(db: ProgramDB) -> List[Instance]:
                             whole = True
                     if not whole and used_fields and concl_fields and not concl_fields <= used_fields:
                         partial = (comp, sorted(concl_fields - used_fields))
+        if ok:
+            by_container = [x for ke in key_exprs for x in ast.walk(ke) if isinstance(x, ast.Call) and isinstance(x.func, ast.Name) and x.func.id == "id"
+                            and x.args and isinstance(x.args[0], ast.Name) and x.args[0].id == cp]
+            if by_container:
+                out.append(inst("CONCLUDED-PER-CONCLUSION", VIOLATION, m, f"ConclusionSelector.update_conclusion[{unparse(c)[:50]}]",
+                                f"the store is selected by `{unparse(by_container[0])}`, the identity of the set the operand hands in, not by the conclusions in it: an operand "
+                                f"that is a selector itself hands in its ONE set object whose contents change from row to row, so what a refinement concluded for an item "
+                                f"(stored as {{item}}) counts as the base's conclusions having been drawn for that item", line=c.lineno))
+                continue
         if partial is not None:
             out.append(inst("CONCLUDED-PER-CONCLUSION", VIOLATION, m, f"ConclusionSelector.update_conclusion[{unparse(c)[:50]}]",
                             f"the store is selected by `{unparse(partial[0].elt)}` of each conclusion, which leaves out its {', '.join(partial[1])}: two "
